@@ -16,6 +16,38 @@ theorems instantiate `NumOps` with `F64.ops`, the exact binary64 arithmetic the 
 namespace Cppcms.C11.Props
 open Cppcms Cppcms.C11 Cppcms.C11.Spec
 
+/-! ## The key order of `json::object` -/
+
+/-- **key_order_is_bytewise_lexicographic.**  `string_key::operator<`, as translated from
+`cppcms/string_key.h` on every run (`Gen.keyLess`, the comparator of `std::map<string_key,value>`;
+`mapLt` in the model), is the bytewise lexicographic order on **all** byte strings — NUL is a byte
+like any other: `a < b` iff `a` is a proper prefix of `b` or the first differing byte is smaller
+(`Spec.BytesLt`).  It is a strict total order, and the equivalence the map derives from it
+("neither is less") holds iff the two keys are identical; `operator==` is length + `memcmp`.
+`accepts_rfc8259` (distinct member names never collide), `KeysUnique`/`KeysSorted` in
+`parse_total`, and the round-trip theorems rest on this fact: the model's map operations
+(`mapHasKey`, `mapInsert`, defined from `mapLt`) are thereby the specification's. -/
+theorem key_order_is_bytewise_lexicographic :
+    (∀ a b : Bytes, mapLt a b = true ↔ BytesLt a b) ∧
+    (∀ a : Bytes, mapLt a a = false) ∧
+    (∀ a b c : Bytes, mapLt a b = true → mapLt b c = true → mapLt a c = true) ∧
+    (∀ a b : Bytes, a ≠ b → mapLt a b = true ∨ mapLt b a = true) ∧
+    (∀ a b : Bytes, mapEquiv a b = true ↔ a = b) ∧
+    Gen.keyEqIsLengthAndMemcmp = true := by
+  refine ⟨fun a b => by rw [mapLt_eq]; exact keyLt_iff_bytesLt a b, fun a => by rw [mapLt_eq]; exact keyLt_irrefl a,
+    fun a b c h1 h2 => by rw [mapLt_eq] at *; exact keyLt_trans a b c h1 h2,
+    fun a b h => by rw [mapLt_eq, mapLt_eq]; exact keyLt_total a b h,
+    fun a b => by rw [mapEquiv_eq]; simp, rfl⟩
+
+/-- keys that agree up to an embedded NUL and differ after it are different keys, in order -/
+example : mapLt [97, 0, 98] [97, 0, 99] = true ∧ mapEquiv [97, 0, 98] [97, 0, 99] = false ∧
+    mapLt [0, 120] [0, 121] = true ∧ mapLt [107] [107, 0] = true ∧ mapLt [107, 0] [107, 0, 0] = true ∧
+    mapLt [127] [128] = true := by decide +kernel
+
+/-- `{"a\u0000b":1,"a\u0000c":2}` is accepted with two members -/
+example : (parse F64.ops [123, 34, 97, 92, 117, 48, 48, 48, 48, 98, 34, 58, 49, 44, 34, 97, 92, 117, 48, 48, 48, 48, 99, 34, 58, 50, 125]).isSome = true := by
+  decide +kernel
+
 /-! ## Parsing -/
 
 /-- **parse_total.**  `parseStream` is a total function (the tokenizer and the machine are
